@@ -191,13 +191,16 @@ pub struct Ser<'t, 'c> {
     pub n_expanded_empty: u32,
     pub n_entity_refs: u32,
     pub n_nil_true: u32,
+    /// position and length of an XML declaration that names a legacy encoding
+    legacy_decl: Option<(usize, usize)>,
+    pub n_legacy_decl: u32,
     /// the document declares the general entities of TEXTS_ENT
     ent_ok: bool,
 }
 
 impl<'t, 'c> Ser<'t, 'c> {
     pub fn new(tape: &'t [u8], cfg: &'c SurfaceCfg) -> Self {
-        Ser { out: Vec::new(), t: Tape::new(tape), cfg, n_comments: 0, n_cdata: 0, n_selfclosed: 0, n_expanded_empty: 0, n_entity_refs: 0, n_nil_true: 0, ent_ok: false }
+        Ser { out: Vec::new(), t: Tape::new(tape), cfg, n_comments: 0, n_cdata: 0, n_selfclosed: 0, n_expanded_empty: 0, n_entity_refs: 0, n_nil_true: 0, legacy_decl: None, n_legacy_decl: 0, ent_ok: false }
     }
 
     fn push(&mut self, s: &str) {
@@ -452,7 +455,15 @@ impl<'t, 'c> Ser<'t, 'c> {
                 "<?xml version=\"1.0\"?>",
                 "<?xml version=\"1.0\" encoding=\"UTF-8\"?>",
                 "<?xml version='1.0' encoding='utf-8' standalone='yes'?>",
+                "<?xml version=\"1.0\"?>",
+                "<?xml version=\"1.0\" encoding=\"UTF-8\"?>",
+                // a declared legacy encoding is only kept when the document turns out to be pure ASCII (see below)
+                "<?xml version=\"1.0\" encoding=\"ISO-8859-1\"?>",
+                "<?xml version='1.0' encoding='us-ascii'?>",
             ]);
+            if d.contains("8859") || d.contains("ascii") {
+                self.legacy_decl = Some((self.out.len(), d.len()));
+            }
             self.push(d);
             if self.cfg.outer_ws && self.t.chance(128) {
                 self.push("\n");
@@ -496,6 +507,14 @@ impl<'t, 'c> Ser<'t, 'c> {
             let b = *self.t.pick(&["\n", " ", "\n\n", "\t\n"]);
             self.push(b);
         }
+        if let Some((at, len)) = self.legacy_decl.take() {
+            // the bytes are UTF-8: a legacy encoding may only be declared when they are pure ASCII
+            if self.out.is_ascii() {
+                self.n_legacy_decl += 1;
+            } else {
+                self.out.splice(at..at + len, b"<?xml version=\"1.0\"?>".iter().copied());
+            }
+        }
         v
     }
 }
@@ -514,12 +533,13 @@ pub struct SerStats {
     pub expanded_empty: u32,
     pub entity_refs: u32,
     pub nil_true: u32,
+    pub legacy_decl: u32,
 }
 
 pub fn serialize_stats(root: &Node, surface: &[u8], cfg: &SurfaceCfg) -> (Vec<u8>, VNode, SerStats) {
     let mut s = Ser::new(surface, cfg);
     let v = s.document(root);
-    let st = SerStats { comments: s.n_comments, cdata: s.n_cdata, selfclosed: s.n_selfclosed, expanded_empty: s.n_expanded_empty, entity_refs: s.n_entity_refs, nil_true: s.n_nil_true };
+    let st = SerStats { comments: s.n_comments, cdata: s.n_cdata, selfclosed: s.n_selfclosed, expanded_empty: s.n_expanded_empty, entity_refs: s.n_entity_refs, nil_true: s.n_nil_true, legacy_decl: s.n_legacy_decl };
     (s.out, v, st)
 }
 
@@ -533,7 +553,7 @@ pub fn serialize_docs(docs: &[Node], surface: &[u8], cfg: &SurfaceCfg) -> (Vec<V
         bytes.push(std::mem::take(&mut s.out));
         vs.push(v);
     }
-    let st = SerStats { comments: s.n_comments, cdata: s.n_cdata, selfclosed: s.n_selfclosed, expanded_empty: s.n_expanded_empty, entity_refs: s.n_entity_refs, nil_true: s.n_nil_true };
+    let st = SerStats { comments: s.n_comments, cdata: s.n_cdata, selfclosed: s.n_selfclosed, expanded_empty: s.n_expanded_empty, entity_refs: s.n_entity_refs, nil_true: s.n_nil_true, legacy_decl: s.n_legacy_decl };
     (bytes, vs, st)
 }
 
